@@ -58,7 +58,7 @@ func runC04P(args []string) {
 			r := newRng(*seed*31337 + uint64(len(name)) + uint64(gn[1]))
 			t := newTrace(*out, "c04p_"+name+"_"+gn, Ev{"property": "C04", "curve": name, "g": gn, "numcpu": runtime.NumCPU(), "seed": int(*seed % (1 << 30))})
 			reps := 2
-			sizes := []int{1, 40, 700, 3000}
+			sizes := []int{1, 40, 700, 3000, 7000} // 7000: window c >= 10, chunk statistics, overweight chunks get split
 			pats := []string{"lin", "few", "small"}
 			tasks := []int{1, 2, 5, 15, 0}
 			if *tier == "thorough" {
@@ -90,7 +90,10 @@ func runC04P(args []string) {
 							verifhook.Start(*seed*1000 + uint64(sc))
 							var pm string
 							var pk bool
-							ok := withWatchdog(120*time.Second, func() {
+							if msmHangs >= 3 {
+								continue
+							}
+							ok := withWatchdog(msmWatchdog, func() {
 								_, pm, pk = call(method(recv, "MultiExp"), pts, scs, reflect.ValueOf(ecc.MultiExpConfig{NbTasks: nt}))
 							})
 							// let straggling goroutines (processors past their send) finish their last steps
@@ -100,6 +103,7 @@ func runC04P(args []string) {
 							emitSync(t, evs)
 							end := Ev{"op": "end", "sc": sc, "nev": len(evs)}
 							if !ok {
+								msmHangs++
 								end["hang"] = true
 							}
 							if pk {
